@@ -7,121 +7,11 @@ oracle below (compositions, zero point, sign, monotonicity, saturation, Henry sl
 classes over seeded parameter vectors in the declared bounds.
 """
 import math
-import struct
 
 from pgv.core import import_pygaps
 
-R_GAS = 8.31446261815324
-
-
-def bits(x):
-    return str(struct.unpack(">Q", struct.pack(">d", float(x)))[0])
-
-
-def unbits(s):
-    return struct.unpack(">d", struct.pack(">Q", int(s)))[0]
-
-
-def logu(rng, lo, hi):
-    return math.exp(rng.uniform(math.log(lo), math.log(hi)))
-
-
-# model -> sampler of (params dict, extra attrs dict)
-def sample_params(name, rng):
-    u = lambda: logu(rng, 1e-3, 1e3)          # noqa
-    cap = lambda: logu(rng, 1e-2, 1e2)        # noqa
-    if name == "Henry":
-        return {"K": u()}
-    if name == "Langmuir":
-        return {"K": u(), "n_m": cap()}
-    if name == "DSLangmuir":
-        return {"n_m1": cap(), "K1": u(), "n_m2": cap(), "K2": u()}
-    if name == "TSLangmuir":
-        return {"n_m1": cap(), "n_m2": cap(), "n_m3": cap(), "K1": u(), "K2": u(), "K3": u()}
-    if name == "BET":
-        return {"n_m": cap(), "C": logu(rng, 1e-1, 1e3), "N": rng.uniform(0.02, 0.98)}
-    if name == "GAB":
-        return {"n_m": cap(), "C": logu(rng, 1e-1, 1e3), "K": rng.uniform(0.02, 0.98)}
-    if name == "Freundlich":
-        return {"K": u(), "m": logu(rng, 0.3, 8)}
-    if name == "DR":
-        return {"n_m": cap(), "e": logu(rng, 2e3, 3e4)}
-    if name == "DA":
-        return {"n_m": cap(), "e": logu(rng, 2e3, 3e4), "m": rng.uniform(1, 3)}
-    if name == "Quadratic":
-        return {"n_m": cap(), "Ka": u(), "Kb": u()}
-    if name == "TemkinApprox":
-        return {"n_m": cap(), "K": u(), "tht": rng.uniform(0, 3)}
-    if name == "Toth":
-        return {"n_m": cap(), "K": u(), "t": logu(rng, 0.25, 4)}
-    if name == "JensenSeaton":
-        return {"K": u(), "a": cap(), "b": logu(rng, 1e-3, 1e1), "c": logu(rng, 0.25, 4)}
-    if name == "Virial":
-        return {"K": u(), "A": rng.uniform(0, 1), "B": rng.uniform(0, 0.3), "C": rng.uniform(0, 0.05)}
-    if name == "FHVST":
-        return {"n_m": cap(), "K": u(), "a1v": rng.uniform(0, 2)}
-    if name == "WVST":
-        return {"n_m": cap(), "K": u(), "L1v": rng.uniform(0.15, 1), "Lv1": rng.uniform(0.15, 1)}
-    raise KeyError(name)
-
-
-SAT = {"Langmuir": lambda p: p["n_m"], "DSLangmuir": lambda p: p["n_m1"] + p["n_m2"],
-       "TSLangmuir": lambda p: p["n_m1"] + p["n_m2"] + p["n_m3"], "DR": lambda p: p["n_m"], "DA": lambda p: p["n_m"],
-       "Quadratic": lambda p: 2 * p["n_m"], "TemkinApprox": lambda p: p["n_m"], "Toth": lambda p: p["n_m"]}
-HENRY = {"Henry": lambda p: p["K"], "Langmuir": lambda p: p["n_m"] * p["K"],
-         "DSLangmuir": lambda p: p["n_m1"] * p["K1"] + p["n_m2"] * p["K2"],
-         "TSLangmuir": lambda p: p["n_m1"] * p["K1"] + p["n_m2"] * p["K2"] + p["n_m3"] * p["K3"],
-         "BET": lambda p: p["n_m"] * p["C"], "GAB": lambda p: p["n_m"] * p["C"] * p["K"],
-         "Quadratic": lambda p: p["n_m"] * p["Ka"], "TemkinApprox": lambda p: p["n_m"] * p["K"],
-         "Toth": lambda p: p["n_m"] * p["K"], "JensenSeaton": lambda p: p["K"],
-         "Virial": lambda p: p["K"], "FHVST": lambda p: p["K"], "WVST": lambda p: p["K"]}
-QUAD_INV = {"BET", "GAB", "DSLangmuir", "Quadratic"}
-ROOT_INV = {"TSLangmuir", "TemkinApprox", "JensenSeaton", "FHVST", "WVST"}
-PEXPLICIT = {"Virial", "FHVST", "WVST"}
-REL_ONLY = {"DR", "DA"}          # relative pressure in (0, 1]
-
-
-def p_grid(name, par, rng, n):
-    """Pressures inside the validity range, increasing, denser near 0 and near the pole."""
-    if name in ("BET", "GAB"):
-        pole = 1 / par["N" if name == "BET" else "K"]
-        xs = sorted(set([pole * f for f in (1e-6, 1e-3, 0.01, 0.5, 0.9, 0.95)] + [pole * rng.uniform(0, 0.95) for _ in range(n)]))
-    elif name in REL_ONLY:
-        xs = sorted(set([1e-4, 1e-2, 0.5, 1.0] + [rng.uniform(1e-4, 1) for _ in range(n)]))
-    else:
-        k = max(v for kk, v in par.items() if kk.startswith("K")) if any(kk.startswith("K") for kk in par) else 1.0
-        xs = sorted(set([logu(rng, 1e-4, 1e2) / k for _ in range(n + 4)]))
-    return xs
-
-
-def henry_probe(name, par):
-    """A pressure small enough for the first-order term of n(p)/p to be below 1e-9 (model specific rate)."""
-    if name in ("BET", "GAB"):
-        pole = 1 / par["N" if name == "BET" else "K"]
-        return 1e-10 * min(pole, 1 / (par["C"] * (par["K"] if name == "GAB" else 1.0)))
-    if name == "Quadratic":
-        return 1e-10 * min(1 / par["Ka"], par["Ka"] / par["Kb"])
-    if name == "Toth":
-        return (1e-11 ** (1 / par["t"])) / par["K"]
-    if name == "JensenSeaton":
-        return min(par["a"] * (1e-11 ** (1 / par["c"])) / par["K"], 1e-10 / par["b"])
-    kmax = max(v for kk, v in par.items() if kk.startswith("K"))
-    return 1e-10 / kmax
-
-
-def make(pg, name, par, temp=300.0):
-    import numpy as np
-    from pygaps.modelling import get_isotherm_model
-    m = get_isotherm_model(name, parameters={k: np.float64(v) for k, v in par.items()})
-    if name in REL_ONLY:
-        m.minus_rt = -R_GAS * temp
-    return m
-
-
-def relerr(a, b):
-    if a == b:
-        return 0.0
-    return abs(a - b) / max(abs(a), abs(b), 1e-300)
+from pgv.models import (HENRY, PEXPLICIT, QUAD_INV, REL_ONLY, ROOT_INV, SAT, bits, henry_probe, logu, make, p_grid, relerr,
+                        sample_params, unbits)
 
 
 def run(ck):
